@@ -224,6 +224,12 @@ Theorem c01_address_lookup_total : forall (ranges : list (option (Z * Z))) addr,
             (i = -1 \/ (0 <= i < blen ranges /\ exists r, nth_error ranges (Z.to_nat i) = Some (Some r) /\ C08.Model.contains r addr = true)).
 Proof. exact address_lookup_total. Qed.
 Print Assumptions c01_address_lookup_total.
+(* MinidumpUnloadedModuleList::modules_at_address: every index the sorted (range, index) vector yields for an address is a
+   position of the module vector, so `&self.modules[*idx]` cannot be out of bounds *)
+Theorem c01_unloaded_lookup_in_range : forall (ranges : list (option (Z * Z))) x i,
+  In i (C08.Model.unloaded_at (C08.Model.unloaded_build ranges) x) -> 0 <= i < blen ranges.
+Proof. exact unloaded_indices_in_range. Qed.
+Print Assumptions c01_unloaded_lookup_in_range.
 (* MinidumpThreadList::get_thread (the id map keeps the last position inserted): the position is inside the thread vector *)
 Theorem c01_get_thread_index_total : forall e raws id,
   (forall t, get_thread_index e raws id <> Pan t) /\ get_thread_index e raws id <> NoFuel /\
@@ -314,7 +320,7 @@ Definition c01_cover_index :=
    c01_header_total, c01_exception_print_total, c01_xstate_iter_total, c01_misc_info_total, c01_thread_contexts_print_total,
    c01_memory_read_in_bounds, c01_linux_kv_bounded, c01_crashpad_info_total, c01_mac_crash_info_total, c01_fixed_streams_total,
    c01_print_sites_total, c01_crash_queries_total, c01_memory_range_sound, c01_last_error_in_bounds, c01_crash_address_total,
-   c01_elf_debug_id_reads, c01_address_lookup_total, c01_get_thread_index_total, c01_lookups_total, c01_layout_pinned).
+   c01_elf_debug_id_reads, c01_address_lookup_total, c01_get_thread_index_total, c01_lookups_total, c01_layout_pinned, c01_unloaded_lookup_in_range).
 Example c01_nonvacuous_queries :
   memory_range Debug 18446744073709551599 16 = Ok (Some (18446744073709551599, 18446744073709551614)) /\
   memory_range Debug 18446744073709551600 16 = Ok None /\ memory_range Debug 5 0 = Ok None /\
